@@ -65,6 +65,11 @@ func (rv *respValue) serializeBlobErrorString(sb *strings.Builder, data respBlob
 }
 
 func (rv *respValue) serializeSimpleString(sb *strings.Builder, data string) {
+	// simple strings and errors are a single line; a line break inside (such as
+	// quoted client input) would end the value early and corrupt the stream
+	if strings.ContainsAny(data, "\r\n") {
+		data = strings.NewReplacer("\r", " ", "\n", " ").Replace(data)
+	}
 	sb.WriteString(fmt.Sprintf("%s\r\n", data))
 }
 
